@@ -577,15 +577,24 @@ class Enc:
             self.requirements.append(('mergejoin left input sorted by ' + show(p[3]), self.is_sorted(L, lk, outer)))
             self.requirements.append(('mergejoin right input sorted by ' + show(p[4]), self.is_sorted(R, rk, outer)))
             out = self._hashjoin_on(jt, 'true', lk, rk, L, R, outer, merge=True)
-            # rows leave a merge join in merge-key order: the left key for pairs and unmatched left rows, the right key
-            # for unmatched right rows (slot layout of _join: pairs, then left padding, then right padding)
+            # rows leave a merge join group by group in merge-key order; inside a group of matching keys the executor loops
+            # `for left_row { for right_row }`, unmatched left groups come before unmatched right groups of an equal
+            # (NULL-containing) key.  Logical order = (merge key, side, left input order, right input order); slot layout
+            # of _join: pairs, then left padding, then right padding.
             kl = [[(self.expr(k, L, row, outer), False) for k in lk] for _, row in L.rows]
             kr = [[(self.expr(k, R, row, outer), False) for k in rk] for _, row in R.rows]
-            ok = [kl[i] for i in range(len(L.rows)) for j in range(len(R.rows))]
+            # position of a row inside its input: the input's own order keys, ties (unspecified after the unstable sort)
+            # broken by slot -- slots are interchangeable, so this loses no tie order
+            slot = lambda i: [(V('I', IntVal(i), bv(False)), False)]
+            pos = lambda rel: [(rel.okeys[i] if rel.okeys is not None else []) + slot(i) for i in range(len(rel.rows))]
+            lo, ro = pos(L), pos(R)
+            pad = lambda ok: [(null(v.t or 'I'), d) for v, d in ok[0]] if ok else []
+            tag = lambda n: [(V('I', IntVal(n), bv(False)), False)]
+            ok = [kl[i] + tag(0) + lo[i] + ro[j] for i in range(len(L.rows)) for j in range(len(R.rows))]
             if jt in ('left_outer', 'full_outer'):
-                ok += kl
+                ok += [kl[i] + tag(0) + lo[i] + pad(ro) for i in range(len(L.rows))]
             if jt in ('right_outer', 'full_outer'):
-                ok += kr
+                ok += [kr[j] + tag(1) + pad(lo) + ro[j] for j in range(len(R.rows))]
             out.okeys = ok
             return out
         n, m = len(L.rows), len(R.rows)
@@ -861,6 +870,8 @@ class Enc:
         return v
 
     def limit(self, c, lim, off, outer=()):
+        if lim == 'null' and off == '0':
+            return c        # no window: nothing is cut, so no assumption about ties either
         l, o = self._count(lim, c, outer), self._count(off, c, outer)
         o = IntVal(0) if o is None else (o.v if isinstance(o, V) else o)
 
